@@ -25,14 +25,65 @@ RULE = ("message sets are produced by really running ProgGen programs (remote su
         "once at the end. A third of the programs run with a second, failing destination and/or raising exception extractors, so the tasks "
         "contain eliot:destination_failure reports and extractor tracebacks; one case in 40 has an action with 250-400 direct children, one in 40 a stream with 1001-1200 top-level actions open at the same "
         "time; 8% of the untyped messages carry a user field named action_status; one Parser value is continued along two suffixes and compared with "
-        "fresh parsers; the lists Parser.add returns are mutated by the caller; a third of the parse_stream inputs are PMaps; in a fifth of the streams the task ids are ones minted elsewhere (upper-case GUIDs, 'Order-n', different tasks whose ids differ only in letter case). non-trivial = task with >=2 nesting levels or a remote sub-task; distinct by (task shape, order class)")
+        "fresh parsers; the lists Parser.add returns are mutated by the caller; a third of the parse_stream inputs are PMaps; in a fifth of the streams the task ids are ones minted elsewhere (upper-case GUIDs, 'Order-n', different tasks whose ids differ only in letter case). part 'deep': one task of 100-700 (thorough: 50-900) nested actions in emission and reversed order. non-trivial = task with >=2 nesting levels or a remote sub-task; distinct by (task shape, order class)")
 ASSUMPTIONS = ["message sets come from well-formed tasks (each position used once)"]
 EXHAUSTIVE_NOTE = "permutations and subsets of every task with <= 6 (quick) / <= 7 (thorough) messages are enumerated completely"
 
 
 def plan(tier, seed):
     n = 400 if tier == "quick" else 3000
-    return [{"seed": seed, "i": i, "tier": tier} for i in range(n)]
+    specs = [{"seed": seed, "i": i, "tier": tier} for i in range(n)]
+    specs += [{"part": "deep", "seed": seed, "i": i, "tier": tier, "depth": d} for i, d in enumerate([100, 250, 400, 520, 700] if tier == "quick" else
+                                                                                            [50, 100, 200, 300, 400, 430, 480, 500, 520, 600, 700, 900])]
+    return specs
+
+
+def part_deep(spec):
+    """One task of `depth` nested actions (no recursion in the logging program: the blocks are entered in a loop), fed to the parser in
+    emission order and reversed. (At about 490 levels the parser's mutual recursion exhausts the default recursion limit: recorded finding.)"""
+    from eliot import start_action
+    res = {"evals": 1, "nontrivial": [], "counters": {}, "violations": [], "sets": {"order_classes": []}}
+    depth = spec["depth"]
+    tape = Tape()
+    rec = Recorder(tape, "rec")
+    add_destinations(rec)
+    try:
+        stack = []
+        for k in range(depth):
+            a = start_action(action_type="deep:a", k=k)
+            a.__enter__()
+            stack.append(a)
+        while stack:
+            stack.pop().__exit__(None, None, None)
+    finally:
+        remove_destination(rec)
+    msgs = tape.msgs("rec")
+    problems = []
+    for label, order in (("emission order", msgs), ("reversed", list(reversed(msgs)))):
+        try:
+            tasks = list(Parser.parse_stream(order))
+            if len(tasks) != 1 or not tasks[0].is_complete():
+                problems.append("%s: a task of %d nested actions (%d messages) parsed to %d tasks, complete: %s" % (label, depth, len(msgs), len(tasks), [t.is_complete() for t in tasks]))
+            else:
+                n, node = 0, tasks[0].root()
+                while True:
+                    n += 1
+                    kids = [c for c in node.children if hasattr(c, "children")]
+                    if not kids:
+                        break
+                    node = kids[0]
+                if n != depth:
+                    problems.append("%s: parsed nesting depth %d, logged %d" % (label, n, depth))
+        except RecursionError as e:
+            problems.append("%s: the parser raised RecursionError on a well-formed task of %d nested actions (%d messages)" % (label, depth, len(msgs)))
+        except BaseException as e:
+            problems.append("%s: the parser raised %r on a task of %d nested actions" % (label, e, depth))
+    res["counters"]["deeply_nested_tasks_fed"] = 1
+    res["nontrivial"].append(h(["deep", depth]))
+    if problems:
+        mech = "parser-recursion-deep-nesting" if (depth > 440 and all("RecursionError" in p_ for p_ in problems)) else None
+        res["violations"].append({"msg": problems[0], "mech": mech, "detail": {"part": "deep", "depth": depth, "problems": problems}})
+    return res
 
 
 def strip(m):
@@ -140,6 +191,8 @@ def task_shape(msgs):
 
 
 def run_case(spec):
+    if spec.get("part") == "deep":
+        return part_deep(spec)
     rng = random.Random("%s:C09:%d" % (spec["seed"], spec["i"]))
     tier = spec["tier"]
     exh_limit = 6 if tier == "quick" else 7
